@@ -303,6 +303,10 @@ def r3(ctx, rep, prog):
             continue
         calls = [x for x in vt.walk(vt.strip(cond)) if x.get('k') == 'call']
         has_filter = any(x.get('f') == 'filter' and 'is_skipped' in json.dumps(x.get('args')) for x in calls)
+        if not has_filter:
+            # loop form: the tested list is filled by pushes that all sit behind the loop's `is_skipped` continue
+            vecs = [x for x in vt.walk(vt.strip(cond)) if x.get('k') == 'vecof' and x.get('items')]
+            has_filter = bool(vecs) and all(pr.loop_skip_filter(it.get('guard', [])) is not None for x in vecs for it in x['items'])
         on_parsed = form == 'parsed'
         ok = has_filter and on_parsed
         why = 'the all-unit test is evaluated on the raw syn variants, before the skip filter' if not has_filter else ('the test does not inspect the parsed RustEnumVariant values' if not on_parsed else '')
